@@ -44,6 +44,11 @@ type c15Input struct {
 	Hold string `json:"hold,omitempty"` // "" | "must-return" | "observe" (+ ":reset"): the script ends one stream (FIN / reset) and leaves the others open
 	Pre  string `json:"pre,omitempty"`  // "prior-session": the output directory holds a.bin and a sidecar with chunk 0 complete
 	Hex2 string `json:"hex2,omitempty"` // ep-recv: control bytes written once the receiver has stored a chunk
+	Tree string `json:"tree,omitempty"` // ep-send: "big" = c15TreeBig (files of 21 and 70 chunks) instead of the recorded c15Tree
+	// NoRead: the scripted peer never reads (or stops reading) what the endpoint
+	// writes, sends/accepts what the spec says and then ends all of its streams
+	// (c15noread.go)
+	NoRead *c15NoReadSpec `json:"noread,omitempty"`
 }
 
 type c15Result struct {
@@ -62,6 +67,12 @@ type c15Result struct {
 	ChunkStored         bool `json:"chunk_stored,omitempty"`          // Hex2: recv.chunk.afterMark was hit before Hex2 was written
 	SawChunk0           bool `json:"saw_chunk0,omitempty"`            // the receiver reported chunk 0 of a file as complete in a FileResumeInfo
 	HeldOpen            bool `json:"held_open,omitempty"`             // the watchdog fired while the script was still holding the other streams open
+	BigInfos            int  `json:"big_infos,omitempty"`             // reactive receiver: resume reports written for files of more than 8 chunks
+	PeerWrote           int  `json:"peer_wrote,omitempty"`            // no-read sender: files whose FileBegin..FileEnd the receiver consumed
+	PeerRead            int  `json:"peer_read,omitempty"`             // no-read receiver: bytes it read before it stopped reading
+	PeerEnded           bool `json:"peer_ended,omitempty"`            // no-read: the script closed all of its streams and its connection
+	Finalized           int  `json:"finalized,omitempty"`             // no-read sender: files the receiver had completed (hook recv.finalize.before) when the sender ended
+	PeerStalled         bool `json:"peer_stalled,omitempty"`          // no-read sender: its own writes were still blocked (the receiver had stopped reading) when it ended
 }
 
 const c15AllocBase = 4 << 20 // bytes; plus 64 x input length
@@ -303,7 +314,11 @@ func c15Child(args []string) int {
 					return 3
 				}
 			}
-			res = c15RunEndpoint(lp, in, work)
+			if in.NoRead != nil {
+				res = c15RunNoRead(lp, in, work)
+			} else {
+				res = c15RunEndpoint(lp, in, work)
+			}
 		} else {
 			res = c15RunDecoder(in, work)
 		}
@@ -617,9 +632,13 @@ func c15RunEndpoint(lp *vk.ListenerPool, in c15Input, work string) (res c15Resul
 	case "ep-send":
 		src := filepath.Join(base, "srcroot")
 		tree := c15Tree()
+		if in.Tree == "big" {
+			tree = c15TreeBig()
+		}
 		_ = tree.Materialize(src)
 		m, _ := manifest.ScanPaths([]string{src})
 		resolver, _ := app.VerifBuildPathResolver([]string{src})
+		c15BigInfos.Store(0)
 		var opts transfer.Options
 		switch in.Opts {
 		case "app", "app-mc":
@@ -716,6 +735,9 @@ func c15RunEndpoint(lp *vk.ListenerPool, in c15Input, work string) (res c15Resul
 	}
 	res.ChunkStored = chunkStored.Load()
 	res.SawChunk0 = sawChunk0.Load()
+	if in.Target == "ep-send" {
+		res.BigInfos = int(c15BigInfos.Load())
+	}
 	// goroutines of the endpoint may still be finishing an allocation they
 	// started on the peer's say-so: give them a moment before measuring
 	time.Sleep(150 * time.Millisecond)
@@ -797,9 +819,11 @@ func c15ReactiveAcks(cs transfer.Stream, mode string, recorded []byte) {
 			infos[ri.StreamID] = ri
 		}
 	}
-	if _, err := transfer.VerifCoreReadControlHeader(cs); err != nil {
+	hm, err := transfer.VerifCoreReadControlHeader(cs)
+	if err != nil {
 		return
 	}
+	begun := map[uint64]transfer.FileBegin{} // what the sender announced, by stream id
 	rep := func(n int, f func(w transfer.Stream)) {
 		// encode n copies into one buffer so that they arrive in one read
 		buf := vk.NewMemStream(nil)
@@ -825,6 +849,9 @@ func c15ReactiveAcks(cs transfer.Stream, mode string, recorded []byte) {
 			return
 		}
 		switch typ {
+		case transfer.VerifTypeFileBegin:
+			fb := msg.(transfer.FileBegin)
+			begun[fb.StreamID] = fb
 		case transfer.VerifTypeResumeRequest:
 			rq := msg.(transfer.ResumeRequest)
 			ri, ok := infos[rq.StreamID]
@@ -835,7 +862,14 @@ func c15ReactiveAcks(cs transfer.Stream, mode string, recorded []byte) {
 			if strings.HasPrefix(mode, "resumeinfo") {
 				k = n
 			}
-			if strings.HasPrefix(mode, "field:resumeinfo") {
+			if strings.HasPrefix(mode, "field:resumeinfo-bitmap-len") {
+				// the honest report for the file the sender announced, made
+				// inconsistent as the mode says
+				ri = transfer.FileResumeInfo{FileID: rq.FileID, StreamID: rq.StreamID, TotalChunks: c15ChunksOf(rq, begun, hm)}
+				if v := c15ModeArg(mode, "file"); v == "" || strings.HasSuffix(begun[rq.StreamID].RelPath, v) {
+					ri = c15BitmapLenVariant(ri, mode)
+				}
+			} else if strings.HasPrefix(mode, "field:resumeinfo") {
 				ri = c15ResumeInfoVariant(ri, mode)
 			}
 			rep(k, func(w transfer.Stream) { _ = transfer.VerifCoreWriteFileResumeInfo(w, ri) })
@@ -1048,6 +1082,7 @@ func c15EndpointInputs(e *Env, ctrlW, ctrlR, dataW []byte) []c15Input {
 	hostile("creditbatch-huge", append(ds1(), []byte{transfer.VerifTypeCreditBatch, 0xFF, 0xFF, 0xFF, 0xFF}...))
 	hostile("end-immediately", append(ds1(), transfer.VerifTypeEnd))
 	c15FieldInputs(e, r, ctrlW, ctrlR, dataW, hdrLen, func(in c15Input) { list = append(list, in) })
+	c15Round4Inputs(e, func(in c15Input) { list = append(list, in) })
 	for i := range list {
 		list[i].ID = fmt.Sprintf("E%06d", i)
 	}
@@ -1149,6 +1184,12 @@ func c15Key(in c15Input, kind string) string {
 			return fmt.Sprintf("%s:%s:%s:%s", kind, in.Target, p[0], p[1])
 		}
 	}
+	if strings.HasPrefix(cls, "noread:") {
+		// peer never reads: the key names who stopped reading and what was in flight
+		if p := strings.SplitN(cls, ":", 4); len(p) >= 3 {
+			return fmt.Sprintf("%s:%s:%s:%s:%s", kind, in.Target, p[0], p[1], p[2])
+		}
+	}
 	if i := strings.Index(cls, "field:"); i >= 0 {
 		// named field: the key names the field, not the value written into it
 		f := cls[i+len("field:"):]
@@ -1161,7 +1202,7 @@ func c15Key(in c15Input, kind string) string {
 }
 
 func runC15(e *Env) {
-	e.R.Rule = "(a) decoders (control records, control header, legacy manifest and file receivers, dumb receiver header, LoadSidecar) fed from an in-memory stream in child processes: every valid record type truncated at every byte, every 1/2/4-byte field position set to {0,1,0xFFFF,0x7FFFFFFF,0x80000000,0xFFFFFFFF}, every enumeration/flag byte (record type, FileBegin hash algorithm, FileDone ok, legacy record types) swept over its values, seeded random bytes; (b) the real RecvManifestMultiStream / SendManifestMultiStream over loopback QUIC, under the library option set, the option set internal/app passes (progress/delta/stats/resume-stats/file-done callbacks on the real progress objects, ParamSource, path resolver) and the empty option set, against a script that (b1) replays a recorded valid trace with the same kinds of mutation on the control stream and the data stream at every protocol stage and then closes the connection, (b2) sets each peer-chosen enumeration/flag byte to its values in the history in which the endpoint consumes it (FileBegin.HashAlg: fresh file / chunk stored then ResumeRequest / earlier session's sidecar on disk; record type byte at each stage; FileDone.OK after FileEnd; resume report bitmap/counts/verified chunk/hash sentinel after ResumeRequest), (b3) ends one stream inside a record (FIN or reset, data stream inside a chunk payload / frame header / at a frame boundary, acknowledgement stream inside a record) and keeps the other streams open; monitors: process death (attributed to the logged case), recovered panic, return after the input ended (watchdog + canary; for b3 payload and acknowledgement classes: return while the other streams are still open), TotalAlloc delta <= 4 MiB + 64 x input bytes; distinct by (input bytes, option set, history)"
+	e.R.Rule = "(a) decoders (control records, control header, legacy manifest and file receivers, dumb receiver header, LoadSidecar) fed from an in-memory stream in child processes: every valid record type truncated at every byte, every 1/2/4-byte field position set to {0,1,0xFFFF,0x7FFFFFFF,0x80000000,0xFFFFFFFF}, every enumeration/flag byte (record type, FileBegin hash algorithm, FileDone ok, legacy record types) swept over its values, seeded random bytes; (b) the real RecvManifestMultiStream / SendManifestMultiStream over loopback QUIC, under the library option set, the option set internal/app passes (progress/delta/stats/resume-stats/file-done callbacks on the real progress objects, ParamSource, path resolver) and the empty option set, against a script that (b1) replays a recorded valid trace with the same kinds of mutation on the control stream and the data stream at every protocol stage and then closes the connection, (b2) sets each peer-chosen enumeration/flag byte to its values in the history in which the endpoint consumes it (FileBegin.HashAlg: fresh file / chunk stored then ResumeRequest / earlier session's sidecar on disk; record type byte at each stage; FileDone.OK after FileEnd; resume report bitmap/counts/verified chunk/hash sentinel after ResumeRequest), (b3) ends one stream inside a record (FIN or reset, data stream inside a chunk payload / frame header / at a frame boundary, acknowledgement stream inside a record) and keeps the other streams open, (b4) answers the ResumeRequest for a file of 21 or 70 chunks with a resume report whose bitmap has 0 / 1 / needed-1 / needed / needed+1 / 2 x needed bytes and whose TotalChunks is the real count / 0 / 8 x the bitmap length, bits all clear or all set, with and without a chunk to verify (honest reports for the sender's other files; with and without ResumeStatsFn), (b5) never reads what the endpoint writes and then ends every stream and the connection: a sender that completes 4..40 empty or one-chunk files over 1..2 announced data streams (with and without ResumeRequests) and never reads an acknowledgement, and a receiver that stops reading after nothing / the header / K control records / K data frames while the sender has four files to send; over the repository's in-memory transport (an unread write blocks at once, so the receiver's acknowledgement queue of 8 per data stream fills) and over QUIC (the unread bytes fit the window); monitors: process death (attributed to the logged case), recovered panic, return after the input ended (watchdog + canary; for b3 payload and acknowledgement classes: return while the other streams are still open; for b5: return within 10 s of the moment the peer has closed everything), TotalAlloc delta <= 4 MiB + 64 x input bytes; distinct by (input bytes, option set, history)"
 	dec := c15DecoderInputs(e)
 	ctrlW, ctrlR, dataW, ok := c15Record(e)
 	if !ok {
@@ -1249,6 +1290,7 @@ func runC15(e *Env) {
 	perOpts := map[string]int{}             // endpoint results per (target, option set)
 	fieldOut := map[string]map[string]int{} // field@history -> outcome counts
 	holdOut := map[string]map[string]int{}  // stream-end class -> outcome counts
+	noReadOut := map[string]map[string]int{} // peer-never-reads: target:transport[option set] -> outcome counts
 	bump := func(m map[string]map[string]int, k, what string) {
 		if m[k] == nil {
 			m[k] = map[string]int{}
@@ -1264,7 +1306,7 @@ func runC15(e *Env) {
 	for id, res := range allRes {
 		in := byID[id]
 		e.R.Eval()
-		e.R.Distinct(fmt.Sprintf("%s[%s%s%s]:%x:%s", in.Target, in.Opts, in.Hold, in.Pre, vk.HashStr(in.Hex+"|"+in.Data+"|"+in.Hex2), in.Class))
+		e.R.Distinct(fmt.Sprintf("%s[%s%s%s%s]:%x:%s", in.Target, in.Opts, in.Hold, in.Pre, in.Tree, vk.HashStr(in.Hex+"|"+in.Data+"|"+in.Hex2), in.Class))
 		perTarget[in.Target]++
 		if strings.HasPrefix(in.Target, "ep-") {
 			perOpts[in.Target+"["+optName(in.Opts)+"]"]++
@@ -1289,6 +1331,38 @@ func runC15(e *Env) {
 				if res.SawChunk0 {
 					bump(fieldOut, k, "receiver_reported_chunk0_complete")
 				}
+			}
+			if in.NoRead != nil {
+				k := in.Target + ":" + in.NoRead.Transport + "[" + optName(in.Opts) + "]"
+				bump(noReadOut, k, "cases")
+				switch {
+				case res.TimedOut:
+					bump(noReadOut, k, "not_returned_after_peer_ended")
+				case res.ReturnedNil:
+					bump(noReadOut, k, "returned_nil")
+				default:
+					bump(noReadOut, k, "returned_error")
+				}
+				if res.PeerEnded {
+					bump(noReadOut, k, "peer_ended_all_streams")
+				}
+				if in.Target == "ep-recv" && (res.PeerStalled || res.PeerWrote == in.NoRead.Files) && res.Finalized < in.NoRead.Files && res.PeerEnded {
+					// the sender had delivered every record (or its own writes
+					// were blocked), the receiver had completed only some of the
+					// files and had stopped making progress when the sender
+					// ended: its replies are backed up into its main loop
+					// (acknowledgement queue full)
+					bump(noReadOut, k, "receiver_backed_up_before_peer_ended")
+				}
+				if in.Target == "ep-recv" && res.PeerStalled {
+					bump(noReadOut, k, "peer_writes_blocked_before_it_ended")
+				}
+				if in.Target == "ep-send" && res.PeerRead > 0 {
+					bump(noReadOut, k, "peer_read_some_then_stopped")
+				}
+			}
+			if res.BigInfos > 0 && strings.Contains(in.Class, "resumeinfo-bitmap-len@") {
+				bump(fieldOut, "resumeinfo-bitmap-len@big-file["+optName(in.Opts)+"]", "reports_for_files_over_8_chunks")
 			}
 			if in.Hold != "" {
 				p := strings.SplitN(in.Class, ":", 3)
@@ -1335,6 +1409,14 @@ func runC15(e *Env) {
 				e.R.Inconcl(id + ": endpoint did not return within 10 s but the canary case did not either (machine stalled)")
 				continue
 			}
+			if in.NoRead != nil {
+				if !res.PeerEnded {
+					e.R.Inconcl(id + ": the no-read script had not ended its streams when the watchdog fired")
+					continue
+				}
+				e.R.Violate(c15Key(in, "hang"), fmt.Sprintf("%s (option set %s, %s transport) had not returned 10 s after a peer that never read its output had closed every stream and the connection (class %s; a fresh valid exchange completed meanwhile)", in.Target, optName(in.Opts), in.NoRead.Transport, in.Class), in, map[string]any{"goroutines": res.Dump, "peer_wrote_files": res.PeerWrote, "peer_read_bytes": res.PeerRead})
+				continue
+			}
 			if res.HeldOpen {
 				e.R.Violate(c15Key(in, "hang"), fmt.Sprintf("%s (option set %s) had not returned 10 s after one of its streams had ended inside a record while the peer kept the other streams open (class %s; a fresh valid exchange completed meanwhile)", in.Target, optName(in.Opts), in.Class), in, map[string]any{"goroutines": res.Dump})
 				continue
@@ -1370,7 +1452,7 @@ func runC15(e *Env) {
 		var dump []map[string]any
 		for _, in := range eps {
 			if res, ok := allRes[in.ID]; ok {
-				dump = append(dump, map[string]any{"class": in.Class, "opts": in.Opts, "hold": in.Hold, "err": res.Err, "nil": res.ReturnedNil, "timed_out": res.TimedOut, "before_close": res.ReturnedBeforeClose, "stored": res.ChunkStored, "chunk0": res.SawChunk0, "alloc": res.AllocB})
+				dump = append(dump, map[string]any{"class": in.Class, "opts": in.Opts, "hold": in.Hold, "err": res.Err, "nil": res.ReturnedNil, "timed_out": res.TimedOut, "before_close": res.ReturnedBeforeClose, "stored": res.ChunkStored, "chunk0": res.SawChunk0, "alloc": res.AllocB, "big_infos": res.BigInfos, "wrote": res.PeerWrote, "finalized": res.Finalized, "stalled": res.PeerStalled, "peer_read": res.PeerRead})
 			}
 		}
 		e.R.SetExtra("dump", dump)
@@ -1379,6 +1461,7 @@ func runC15(e *Env) {
 	e.R.SetExtra("endpoint_results_per_option_set", perOpts)
 	e.R.SetExtra("field_class_outcomes", fieldOut)
 	e.R.SetExtra("stream_end_outcomes", holdOut)
+	e.R.SetExtra("peer_never_reads_outcomes", noReadOut)
 	if !filtered {
 		for _, k := range []string{"ep-recv[lib]", "ep-recv[app]", "ep-send[lib]", "ep-send[app]", "ep-recv[app-mc]", "ep-send[app-mc]"} {
 			e.R.Require(perOpts[k] >= 40, fmt.Sprintf("only %d endpoint results for %s", perOpts[k], k))
@@ -1398,6 +1481,15 @@ func runC15(e *Env) {
 			e.R.Require(holdOut[k]["cases"] >= 8, fmt.Sprintf("stream-end class %s: %v", k, holdOut[k]))
 			k = "acks-open:trunc-in-record[" + o + "]"
 			e.R.Require(holdOut[k]["cases"] >= 2, fmt.Sprintf("stream-end class %s: %v", k, holdOut[k]))
+			k = "resumeinfo-bitmap-len@big-file[" + o + "]"
+			e.R.Require(fieldOut[k]["cases"] >= 20 && fieldOut[k]["reports_for_files_over_8_chunks"] >= 15,
+				fmt.Sprintf("inconsistent (TotalChunks, bitmap length) reports for files of more than 8 chunks under %s options: %v", o, fieldOut[k]))
+			k = "ep-recv:mock[" + o + "]"
+			e.R.Require(noReadOut[k]["receiver_backed_up_before_peer_ended"] >= 2 && noReadOut[k]["peer_ended_all_streams"] >= 2,
+				fmt.Sprintf("peer-never-reads sender did not get past the receiver's acknowledgement queue under %s options: %v", o, noReadOut[k]))
+			k = "ep-send:mock[" + o + "]"
+			e.R.Require(noReadOut[k]["peer_ended_all_streams"] >= 3 && noReadOut[k]["peer_read_some_then_stopped"] >= 2,
+				fmt.Sprintf("peer-never-reads receiver cases under %s options: %v", o, noReadOut[k]))
 		}
 	}
 	e.R.SetExtra("outcomes", outcomes)
